@@ -1,4 +1,6 @@
 import ScrapliModel.Lemmas.Failed
+import ScrapliModel.Lemmas.GoSem
+import ScrapliModel.Generated.BodiesFailed
 /-!
 # C13 — Failure marking and stop-on-failed follow the configured failure strings
 
@@ -425,5 +427,19 @@ the multi-response (not failed), as the property demands. -/
 example : (sendConfig (σ := Nat) (fun i _ => (i + 1, if i == 0 then ofStr "x a" else ofStr "b y"))
     [ofStr "a\nb"] ⟨[], false⟩ ⟨0, []⟩ (ofStr "l1\nl2")).1.map (fun r => (r.failed.isSome, isInfix (ofStr "a\nb") r.result))
     = some (false, true) := by decide +kernel
+
+/-! ## tie to the source: translated bodies = model (regenerated on every run) -/
+
+/-- the `range` loop of `util.StringContainsAnySubStrs` as the translator renders it from the current
+source (`Generated/BodiesFailed.lean`) is `firstSubStr`, for every text and every list -/
+theorem generated_stringContainsAnySubStrs_eq (s : Bytes) (l : List Bytes) :
+    Gen.Bodies.Failed.stringContainsAnySubStrs s l = firstSubStr s l := by
+  unfold Gen.Bodies.Failed.stringContainsAnySubStrs Go.forRange
+  rw [Go.forRangeFrom_find (fun ss => isInfix ss s) (fun ss => ss)]
+  induction l with
+  | nil => simp [firstSubStr]
+  | cons a l ih =>
+    simp only [List.find?, firstSubStr]
+    cases h : isInfix a s <;> simp [ih]
 
 end Scrapli.Failed.C13
